@@ -86,20 +86,38 @@ def _falloc(shape, fill):
     return a
 
 
+def _is_float_dtype(dtype):
+    if dtype is None or dtype in (float, _np.double, _np.float64):
+        return True
+    return isinstance(dtype, type) and issubclass(dtype, float)
+
+
 class _Shim:
     def __getattr__(self, name):
         return getattr(_np, name)
+
+    def finfo(self, t=float):
+        from .proxy import _unshadow
+        return _np.finfo(_unshadow(t))
+
+    def iinfo(self, t=int):
+        from .proxy import _unshadow
+        return _np.iinfo(_unshadow(t))
+
+    def dtype(self, t, *a, **kw):
+        from .proxy import _unshadow
+        return _np.dtype(_unshadow(t), *a, **kw)
 
     # ---- allocation: float arrays that will receive proxies must be object arrays.
     # We cannot know at allocation time, so *all* float allocations made by instrumented
     # code are object arrays holding Python floats; arithmetic is unchanged in value.
     def zeros(self, shape, dtype=float, **kw):
-        if dtype in (float, _np.double, _np.float64, None):
+        if _is_float_dtype(dtype):
             return _falloc(shape, 0.0)
         return _np.zeros(shape, dtype=dtype, **kw)
 
     def ones(self, shape, dtype=float, **kw):
-        if dtype in (float, _np.double, _np.float64, None):
+        if _is_float_dtype(dtype):
             return _falloc(shape, 1.0)
         return _np.ones(shape, dtype=dtype, **kw)
 
@@ -112,7 +130,7 @@ class _Shim:
             r = _np.empty(shape, dtype=object).view(IArr)
             r.fill(int(fill))
             return r
-        if dtype is not None and dtype not in (float, _np.double, _np.float64):
+        if not _is_float_dtype(dtype):
             return _np.full(shape, fill, dtype=dtype)
         return _falloc(shape, float(fill))
 
